@@ -9,7 +9,8 @@ import inspect
 
 # --------------------------------------------------------------------------- values
 
-RECORD = {}      # Rec.key -> list of (args, kwargs) observed by the callable
+RECORD = {}      # task id -> list of (key of the callable, args, kwargs) observed by the callable
+CURRENT = [None]  # the task `runner.run` is executing (set by the wrapper around entrypoint.run)
 
 
 class Tok:
@@ -32,6 +33,11 @@ def tok(key, k):
     return Tok("%s#%d" % (key, k))
 
 
+def is_str(a, s):
+    """a is the string s (safe for ndarray / list arguments, where == is element-wise or costly)"""
+    return isinstance(a, str) and a == s
+
+
 def _argstr(a):
     if isinstance(a, Tok):
         return a.s
@@ -44,12 +50,34 @@ def fn_tok(key, args):
     return Tok("%s(%s)" % (key, ",".join(_argstr(a) for a in args)))
 
 
+def _txt(v):
+    """canonical text of a picklable value (contents of lists, tuples, dicts, arrays)"""
+    import numpy as np
+    if isinstance(v, Tok):
+        return repr(v)
+    if isinstance(v, np.ndarray):
+        return "ndarray(%s)" % _txt(v.tolist())
+    if isinstance(v, np.generic):
+        return "np:%s" % _txt(v.item())
+    if isinstance(v, list):
+        return "[%s]" % ", ".join(_txt(x) for x in v)
+    if isinstance(v, tuple):
+        return "(%s)" % ", ".join(_txt(x) for x in v)
+    if isinstance(v, dict):
+        return "{%s}" % ", ".join("%s: %s" % (_txt(k), _txt(x)) for k, x in v.items())
+    if v is None or isinstance(v, (bool, int, float, str)):
+        return repr(v)
+    return "<%s>" % type(v).__name__
+
+
 def enc(v):
-    """python value -> canonical JSON value"""
+    """python value -> canonical JSON value of the model: None | {"s"} | {"i"} | {"t"} (token) | {"d": text} (any other
+    picklable value) | {"o": type} (cannot be pickled)"""
+    import numpy as np
     if v is None:
         return None
     if isinstance(v, bool):
-        return {"o": "bool"}
+        return {"d": repr(v)}
     if isinstance(v, str):
         return {"s": v}
     if isinstance(v, int):
@@ -58,12 +86,14 @@ def enc(v):
         return {"t": v.s}
     if inspect.isgenerator(v):
         return {"o": "generator"}
-    if isinstance(v, list):
-        return {"o": "list"}
+    if isinstance(v, (float, list, tuple, dict, np.ndarray, np.generic)):
+        return {"d": _txt(v)}
     return {"o": type(v).__name__}
 
 
 def dec(j):
+    """value of the case language -> python value. None | {"s"} | {"i"} | {"t"} | {"f": float} | {"b": bool} |
+    {"l": [json scalars]} | {"tu": [...]} | {"m": [[k, v]...]} | {"nd": [ints]}"""
     if j is None:
         return None
     if "s" in j:
@@ -72,12 +102,62 @@ def dec(j):
         return j["i"]
     if "t" in j:
         return Tok(j["t"])
+    if "f" in j:
+        return float(j["f"])
+    if "b" in j:
+        return bool(j["b"])
+    if "l" in j:
+        return list(j["l"])
+    if "tu" in j:
+        return tuple(j["tu"])
+    if "m" in j:
+        return {k: v for k, v in j["m"]}
+    if "nd" in j:
+        import numpy as np
+        return np.array(j["nd"])
     raise ValueError(j)
 
 
-def _gen(key, m):
+def _gen(key, m, then_raise=False):
     for k in range(m):
         yield tok(key, k)
+    if then_raise:
+        raise RuntimeError("callable-raised")
+
+
+STR_RESULT = "abcdefghijklmnopqrstuvwxyz"
+
+
+def result_of(key, kind, m):
+    """the object a callable of behaviour (kind, m) returns (fresh each time)"""
+    if kind == "ret":
+        return tok(key, 0)
+    if kind == "gen":
+        return _gen(key, m)
+    if kind == "genraise":
+        return _gen(key, m, True)
+    if kind == "list":
+        return [tok(key, k) for k in range(m)]
+    if kind == "tuple":
+        return tuple(tok(key, k) for k in range(m))
+    if kind == "str":
+        return STR_RESULT[:m]
+    if kind == "nd":
+        import numpy as np
+        return np.arange(m)
+    raise AssertionError(kind)
+
+
+def yielded(key, kind, m):
+    """the values iterating that object gives, in order (None: it is not iterable)"""
+    if kind in ("gen", "genraise", "list", "tuple"):
+        return [tok(key, k) for k in range(m)]
+    if kind == "str":
+        return list(STR_RESULT[:m])
+    if kind == "nd":
+        import numpy as np
+        return list(np.arange(m))
+    return None
 
 
 class Rec:
@@ -91,18 +171,12 @@ class Rec:
         self.__name__ = "f_" + key
 
     def __call__(self, *args, **kwargs):
-        RECORD.setdefault(self.key, []).append((list(args), dict(kwargs)))
-        if self.kind == "ret":
-            return tok(self.key, 0)
+        RECORD.setdefault(CURRENT[0], []).append((self.key, list(args), dict(kwargs)))
         if self.kind == "fn":          # the value names the callable and everything it was called with, in order
             return fn_tok(self.key, args)
-        if self.kind == "gen":
-            return _gen(self.key, self.m)
-        if self.kind == "list":
-            return [tok(self.key, k) for k in range(self.m)]
         if self.kind == "raise":
             raise RuntimeError("callable-raised")
-        raise AssertionError(self.kind)
+        return result_of(self.key, self.kind, self.m)
 
     def __repr__(self):
         return "Rec(%s)" % self.key
@@ -116,9 +190,11 @@ def result_json(key, beh, vals=None):
     if kind == "ret":
         return {"kind": "value", "vals": [enc(tok(key, 0))]}
     if kind == "gen":
-        return {"kind": "gen", "vals": [enc(tok(key, k)) for k in range(m)]}
-    if kind == "list":
-        return {"kind": "lst", "vals": [enc(tok(key, k)) for k in range(m)]}
+        return {"kind": "gen", "vals": [enc(v) for v in yielded(key, kind, m)]}
+    if kind == "genraise":
+        return {"kind": "genraise", "vals": [enc(v) for v in yielded(key, kind, m)]}
+    if kind in ("list", "tuple", "str", "nd"):
+        return {"kind": "lst", "self": enc(result_of(key, kind, m)), "vals": [enc(v) for v in yielded(key, kind, m)]}
     return {"kind": "raises", "vals": []}
 
 
@@ -197,13 +273,45 @@ def _ser_nodes(graph):
             pj = {"args": [enc(a) for a in payload[1]], "kwargs": [[k, enc(v)] for k, v in payload[2].items()]}
         else:
             pj = None
+        absent = "payload" not in node
         inputs = []
         for p, other in node["inputs"].items():
             if isinstance(other, str):
                 inputs.append([p, other, None])
             else:
                 inputs.append([p, other[0], other[1]])
-        out.append({"name": name, "payload": pj, "inputs": inputs, "outputs": list(node["outputs"])})
+        out.append({"name": name, "payload": pj, "payload_absent": absent, "inputs": inputs, "outputs": list(node["outputs"])})
+    return out
+
+
+def _declared_args(jargs):
+    """args of the case language -> (python args, intent per slot: "ph" = the author placed an input there,
+    "static" = the author wrote a value)"""
+    args, intent = [], []
+    for a in jargs:
+        if isinstance(a, dict) and "ph" in a:
+            args.append(a["ph"])
+            intent.append("ph")
+        else:
+            args.append(dec(a))
+            intent.append("static")
+    return args, intent
+
+
+def _spec_args(args, intent, ph, res):
+    """what the node declares, slot by slot. A slot where the author placed input p receives p's upstream value.  A value
+    the author wrote is received as written -- except that the payload format (func, args, kwargs) has no way to write a
+    string equal to one of the node's input names other than as the reference to that input: such a slot IS a reference
+    (counted, so that the distribution shows the collision is generated)."""
+    out = []
+    for a, it in zip(args, intent):
+        if it == "ph" and a in ph:
+            out.append(("up",) + ph[a])
+        elif isinstance(a, str) and a in ph:
+            res["static_string_equals_input_name"] = res.get("static_string_equals_input_name", 0) + 1
+            out.append(("up",) + ph[a])
+        else:
+            out.append(("static", a))
     return out
 
 
@@ -253,22 +361,28 @@ def build(case):
     from cascade.low.into import graph2job
     nodes = []
     if kind == "hand":
+        callables = []
         for nd in case["nodes"]:
             beh = nd["beh"]
-            f = Rec(nd["name"], beh["kind"], beh.get("m", 0))
-            args = [dec(a) for a in nd["args"]]
+            if nd.get("share") is not None:
+                # the very callable object of an earlier node (the case repeats its behaviour)
+                f = callables[nd["share"]]
+            else:
+                f = Rec(nd["name"], beh["kind"], beh.get("m", 0))
+            callables.append(f)
+            args, intent = _declared_args(nd["args"])
             kwargs = {k: dec(v) for k, v in nd["kwargs"]}
-            payload = (f, args, kwargs) if nd["payload"] == "tuple" else {"func": "nope"}
+            payload = (f, args, kwargs) if nd["payload"] == "tuple" else (None if nd["payload"] == "none" else {"func": "nope"})
             ins = {}
             for p, pi, o in nd["inputs"]:
                 ins[p] = nodes[pi] if o is None else Output(nodes[pi], o)
             node = BaseNode(nd["name"], outputs=nd["outputs"], payload=payload, **ins)
             nodes.append(node)
             ph = {p: (nodes[pi].name, "0" if o is None else o) for p, pi, o in nd["inputs"]}
-            wf = nd["payload"] == "tuple" and all(any(a == p for a in args) for p in ph)
-            spec[node.name] = {"args": [("up",) + ph[a] if isinstance(a, str) and a in ph else ("static", a) for a in args],
+            wf = nd["payload"] == "tuple" and all(any(is_str(a, p) for a in args) for p in ph)
+            spec[node.name] = {"args": _spec_args(args, intent, ph, res),
                                "kwargs": {k: ("static", v) for k, v in kwargs.items()},
-                               "outs": list(nd["outputs"]) if nd["outputs"] else ["0"], "beh": beh, "key": nd["name"], "wellformed": wf,
+                               "outs": list(nd["outputs"]) if nd["outputs"] else ["0"], "beh": beh, "key": f.key, "wellformed": wf,
                                "parents": [x[0] for x in ph.values()]}
     elif kind == "fluent":
         from earthkit.workflows import fluent
@@ -276,7 +390,7 @@ def build(case):
         for nd in case["nodes"]:
             beh = nd["beh"]
             f = Rec(nd["name"], beh["kind"], beh.get("m", 0))
-            args = [dec(a) for a in nd["args"]]
+            args, intent = _declared_args(nd["args"])
             kwargs = {k: dec(v) for k, v in nd["kwargs"]}
             ins = [nodes[pi] if o is None else nodes[pi].get_output(o) for pi, o in nd["inputs"]]
             arg_ins = ins[0] if (nd.get("single") and len(ins) == 1) else ins
@@ -288,12 +402,19 @@ def build(case):
                 pobj = fluent.Payload(f, list(args), dict(kwargs))
             payload_objs.append(pobj)
             keys_of.append(keys_of[nd["reuse"]] if nd.get("reuse") is not None else nd["name"])
-            node = fluent.Node(pobj, arg_ins, num_outputs=nd["num_outputs"], name=nd["name"])
+            try:
+                node = fluent.Node(pobj, arg_ins, num_outputs=nd["num_outputs"], name=nd["name"])
+            except Exception as e:    # the generator only writes nodes the fluent API documents
+                res["lower_error"] = "construct:" + type(e).__name__
+                res["construct_failed"] = {"node": nd["name"], "args": [enc(a) for a in args], "n_inputs": len(ins)}
+                res["spec"].clear()
+                return res
             nodes.append(node)
             # fluent semantics from its documentation/comment: "Insert inputs not already present in args"
-            declared = list(args) + ["input%d" % i for i in range(len(ins)) if "input%d" % i not in args]
+            missing = ["input%d" % i for i in range(len(ins)) if not any(is_str(a, "input%d" % i) for a in args)]
+            declared, dintent = list(args) + missing, list(intent) + ["ph"] * len(missing)
             ph = {"input%d" % i: (nodes[pi].name, "0" if o is None else o) for i, (pi, o) in enumerate(nd["inputs"])}
-            spec[node.name] = {"args": [("up",) + ph[a] if isinstance(a, str) and a in ph else ("static", a) for a in declared],
+            spec[node.name] = {"args": _spec_args(declared, dintent, ph, res),
                                "kwargs": {k: ("static", v) for k, v in kwargs.items()},
                                "outs": [str(i) for i in range(nd["num_outputs"])], "beh": beh, "key": keys_of[-1], "wellformed": True,
                                "parents": [x[0] for x in ph.values()]}
@@ -322,8 +443,10 @@ def build(case):
         for i in range(s):
             for j in range(n):
                 node = act2.nodes.sel(x=i, y=coords[j]).item()
+                # the author put payload cons[i, j] at position (i, j): the node found at coordinate (x=i, y=coords[j]) is to
+                # run THAT callable (the expectation does not look at what the node carries)
                 spec[node.name] = {"args": [("up", gnames[i], "@%d" % j)], "kwargs": {}, "outs": ["0"], "beh": {"kind": "ret", "m": 1},
-                                   "key": node.payload[0].key, "wellformed": True, "parents": [gnames[i]]}
+                                   "key": "c%d_%d" % (i, j), "wellformed": True, "parents": [gnames[i]]}
                 res["coords"].append([i, coords[j], node.name])
         res["graph"] = act2.graph()
     elif kind == "fprog":
@@ -385,9 +508,9 @@ def _build_fprog(case, res):
     for pi, p in enumerate(case["payloads"]):
         f = Rec("p%d" % pi, "fn", 1)
         f.batchable = True
-        args = [dec(a) for a in p["args"]]
+        args, intent = _declared_args(p["args"])
         kwargs = {k: dec(v) for k, v in p["kwargs"]}
-        user["p%d" % pi] = (args, kwargs)
+        user["p%d" % pi] = (args, kwargs, intent)
         if p["wrap"] == "payload":
             pobjs.append(fluent.Payload(f, list(args), dict(kwargs)))
         elif p["wrap"] == "partial":
@@ -413,10 +536,11 @@ def _build_fprog(case, res):
                 raise ValueError("node %s has %d inputs but none named input%d" % (name, k, i))
             refs.append((other, "0") if isinstance(other, str) else (other[0], other[1]))
         key = node["payload"][0].key
-        args, kwargs = user.get(key, ([], {}))
-        declared = list(args) + ["input%d" % i for i in range(k) if "input%d" % i not in args]
+        args, kwargs, intent = user.get(key, ([], {}, []))
+        missing = ["input%d" % i for i in range(k) if not any(is_str(a, "input%d" % i) for a in args)]
+        declared, dintent = list(args) + missing, list(intent) + ["ph"] * len(missing)
         ph = {"input%d" % i: refs[i] for i in range(k)}
-        spec[name] = {"args": [("up",) + ph[a] if isinstance(a, str) and a in ph else ("static", a) for a in declared],
+        spec[name] = {"args": _spec_args(declared, dintent, ph, res),
                       "kwargs": {kk: ("static", v) for kk, v in kwargs.items()}, "outs": ["0"], "beh": {"kind": "ret", "m": 1},
                       "key": key, "wellformed": True, "parents": [r[0] for r in refs]}
         parents_of[name] = sorted({r[0] for r in refs})
@@ -459,13 +583,17 @@ def canon_job(job):
 
 # --------------------------------------------------------------------------- running
 
+def ds_key(t, o):
+    return t + "\u0000" + o
+
+
 class Runner:
-    """Runs tasks of a job one TaskSequence at a time through the real execute_sequence."""
+    """Runs TaskSequences of a job through the real execute_sequence (-> runner.run -> memory.Memory)."""
 
     def __init__(self, job, mode):
         import cascade.executor.runner.entrypoint as entrypoint
         import cascade.executor.runner.memory as memory
-        from cascade.low.core import WorkerId
+        from cascade.low.core import DatasetId, WorkerId
         from cascade.low.views import param_source
         self.entrypoint = entrypoint
         self.memory = memory
@@ -475,36 +603,70 @@ class Runner:
         self.shm = FakeShm()
         self.events = []
         self.handled = []
-        self._saved = (memory.shm_client, memory.callback, entrypoint.callback)
+        self.started = []       # (task id, what Memory.provide could find when the task started)
+        self._saved = (memory.shm_client, memory.callback, entrypoint.callback, entrypoint.run)
         memory.shm_client = self.shm
         memory.callback = lambda addr, msg: self.events.append(msg)
         entrypoint.callback = lambda addr, msg: self.events.append(msg)
         outer = self
+        real_run = entrypoint.run
+
+        def run_recorded(taskId, executionContext, mem):
+            # the real runner.run, with a note of which task the recording callables are called for
+            outer.started.append((taskId, outer.available()))
+            CURRENT[0] = taskId
+            try:
+                return real_run(taskId, executionContext, mem)
+            finally:
+                CURRENT[0] = None
+
+        entrypoint.run = run_recorded
 
         class RecMemory(memory.Memory):
             def handle(self, outputId, outputSchema, outputValue, isPublish):
-                outer.handled.append([outputId.output, enc(outputValue), bool(isPublish)])
+                outer.handled.append([outputId.task, outputId.output, enc(outputValue), bool(isPublish)])
                 return super().handle(outputId, outputSchema, outputValue, isPublish)
 
         self.RecMemory = RecMemory
         self.mem = RecMemory("cb", self.worker)
-        self.ctx = entrypoint.RunnerContext(workerId=self.worker, job=job, callback="cb", param_source=param_source(job.edges))
+        self.shmids = {}
+        for name, t in job.tasks.items():
+            for o in t.definition.output_schema.keys():
+                self.shmids[memory.ds2shmid(DatasetId(name, o))] = (name, o)
+        try:
+            self.ctx = entrypoint.RunnerContext(workerId=self.worker, job=job, callback="cb", param_source=param_source(job.edges))
+            self.ctx_error = None
+        except Exception as e:
+            self.ctx = None
+            self.ctx_error = "type-error" if isinstance(e, TypeError) else "other:" + type(e).__name__
 
     def close(self):
-        self.memory.shm_client, self.memory.callback, self.entrypoint.callback = self._saved
+        self.memory.shm_client, self.memory.callback, self.entrypoint.callback, self.entrypoint.run = self._saved
+
+    def snapshot(self):
+        """the worker's memory: local dict, keys of the held buffers, shared memory (decoded with the real des_output)"""
+        import cascade.executor.serde as serde
+        loc = sorted(([ds.task, ds.output, enc(v)] for ds, v in self.mem.local.items()), key=lambda e: ds_key(e[0], e[1]))
+        bufs = sorted(([ds.task, ds.output] for ds in self.mem.bufs), key=lambda e: ds_key(e[0], e[1]))
+        shm = []
+        cache = self.__dict__.setdefault("_shm_dec", {})
+        for sid, (data, fun) in self.shm.store.items():
+            t, o = self.shmids.get(sid, ("?" + sid, ""))
+            hit = cache.get(sid)
+            if hit is None or hit[0] is not data:      # decode every stored byte string once
+                hit = cache[sid] = (data, enc(serde.des_output(data, "Any", fun)))
+            shm.append([t, o, hit[1]])
+        shm.sort(key=lambda e: ds_key(e[0], e[1]))
+        return {"loc": loc, "bufs": bufs, "shm": shm}
 
     def available(self):
-        """what Memory.provide can find: the worker's local dict, else the fake shared memory (decoded with the real
-        des_output): [[task, out, val]]"""
-        from cascade.low.core import DatasetId
-        out = []
-        local = {} if self.mode == "fresh" else self.mem.local
-        for name, t in self.job.tasks.items():
-            for o in t.definition.output_schema.keys():
-                ds = DatasetId(name, o)
-                v = local[ds] if ds in local else self.stored(name, o)
-                if v is not _MISSING:
-                    out.append([name, o, enc(v)])
+        """what Memory.provide can find: the worker's local dict, else the fake shared memory: [[task, out, val]]"""
+        snap = self.snapshot()
+        out, seen = [], set()
+        for t, o, v in snap["loc"] + snap["shm"]:
+            if (t, o) not in seen:
+                seen.add((t, o))
+                out.append([t, o, v])
         return out
 
     def stored(self, task, output):
@@ -516,39 +678,77 @@ class Runner:
         data, fun = self.shm.store[sid]
         return serde.des_output(data, "Any", fun)
 
-    def run_task(self, tid, key, publish_outs):
-        """-> dict(received, handled, error, events:[out...], completion:[bool...])"""
+    def memop(self, kind, task, output):
+        """what the worker's loop does between sequences: `provide` (a DatasetPublished for an awaited dataset) or `pop`
+        (DatasetPurge). -> dict(kind, ds, before, after, result)"""
+        from cascade.low.core import DatasetId
+        ds = DatasetId(task, output)
+        before = self.snapshot()
+        try:
+            if kind == "pop":
+                self.mem.pop(ds)
+                result = None
+            else:
+                result = enc(self.mem.provide(ds, "Any"))
+        except KeyError as e:
+            result = "error:missing-input" if "missing-input" in str(e) else "error:other:KeyError"
+        except Exception as e:
+            result = "error:" + ("corrupted" if "internal data corruption" in str(e) else "other:" + type(e).__name__)
+        return {"kind": kind, "ds": [task, output], "before": before, "after": self.snapshot(), "result": result}
+
+    def run_seq(self, tids, publish):
+        """one TaskSequence. publish: list of [task, output]. -> dict(before, after, failed, tasks: tid -> dict(started,
+        avail, received, handled, error, events, completion))"""
         from cascade.controller.notify import is_last_output_of
         from cascade.executor.msg import DatasetPublished, TaskFailure, TaskSequence
         from cascade.low.core import DatasetId
         if self.mode == "fresh":
             self.mem = self.RecMemory("cb", self.worker)
-        RECORD.pop(key, None)
+        for t in tids:
+            RECORD.pop(t, None)
         self.events.clear()
         self.handled.clear()
-        ts = TaskSequence(worker=self.worker, tasks=[tid], publish={DatasetId(tid, o) for o in publish_outs})
+        self.started.clear()
+        before = self.snapshot()
         crash = None
-        try:
-            self.entrypoint.execute_sequence(ts, self.mem, FakePckg(), self.ctx)
-        except BaseException as e:   # execute_sequence must report, never raise
-            crash = "crash:" + type(e).__name__
-        calls = RECORD.get(key, [])
-        received = None
-        if calls:
-            a, k = calls[0]
-            received = {"args": [enc(x) for x in a], "kwargs": sorted([kk, enc(v)] for kk, v in k.items()), "calls": len(calls)}
-        fails = [e for e in self.events if isinstance(e, TaskFailure)]
-        pubs = [e for e in self.events if isinstance(e, DatasetPublished)]
-        completion = []
-        for e in pubs:
+        if self.ctx is None:
+            crash = self.ctx_error
+        else:
+            ts = TaskSequence(worker=self.worker, tasks=list(tids), publish={DatasetId(t, o) for t, o in publish})
             try:
-                completion.append(bool(is_last_output_of(e.ds, self.job)))
-            except Exception as ex:
-                completion.append("error:" + type(ex).__name__)
-        error = crash or (classify(fails[0].detail) if fails else None)
-        return {"received": received, "handled": [list(h) for h in self.handled], "error": error,
-                "events": [[e.ds.task, e.ds.output] for e in pubs], "completion": completion,
-                "failure_task": (fails[0].task if fails else None)}
+                self.entrypoint.execute_sequence(ts, self.mem, FakePckg(), self.ctx)
+            except BaseException as e:   # execute_sequence must report, never raise
+                crash = "crash:" + type(e).__name__
+        after = self.snapshot()
+        fails = [e for e in self.events if isinstance(e, TaskFailure)]
+        failed = None
+        if crash:
+            failed = [None, crash]
+        elif fails:
+            failed = [fails[0].task, classify(fails[0].detail)]
+        started = dict(self.started)
+        tasks = {}
+        for tid in tids:
+            calls = RECORD.get(tid, [])
+            received = None
+            if calls:
+                key, a, k = calls[0]
+                received = {"key": key, "args": [enc(x) for x in a], "kwargs": sorted([kk, enc(v)] for kk, v in k.items()), "calls": len(calls)}
+            pubs = [e for e in self.events if isinstance(e, DatasetPublished) and e.ds.task == tid]
+            completion = []
+            for e in pubs:
+                try:
+                    completion.append(bool(is_last_output_of(e.ds, self.job)))
+                except Exception as ex:
+                    completion.append("error:" + type(ex).__name__)
+            error = None
+            if failed is not None and (failed[0] == tid or (failed[0] is None and tid not in started)):
+                error = failed[1]
+            tasks[tid] = {"started": tid in started, "avail": started.get(tid), "received": received,
+                          "handled": [h[1:] for h in self.handled if h[0] == tid], "error": error,
+                          "events": [[e.ds.task, e.ds.output] for e in pubs], "completion": completion}
+        return {"tids": list(tids), "publish": [list(p) for p in publish], "before": before, "after": after, "failed": failed,
+                "nfailures": len(fails), "tasks": tasks}
 
 
 _MISSING = object()
